@@ -528,6 +528,27 @@ def fault_rule(ctx: Ctx, rid: str) -> None:
             parents[id(c)] = n
     dispatch = [c for c in calls_in(step.node) if isinstance(c.func, ast.Attribute) and c.func.attr == "behavior"]
     if not dispatch:
+        # the dispatch sits in a helper the model could not write back into step(): decide the one case that matters here -- a helper
+        # that restores the substituted input register in a `finally`, i.e. also on the way to step()'s handler, which then reads the
+        # regular register instead of the one the failing stage worked on
+        pl = m.cls("Pipeline")
+        for h in pl.methods.values():
+            if h is step or not any(isinstance(c.func, ast.Attribute) and c.func.attr == "behavior" for c in calls_in(h.node)):
+                continue
+            for t in (n for n in ast.walk(h.node) if isinstance(n, ast.Try) and n.finalbody):
+                in_body = any(isinstance(c.func, ast.Attribute) and c.func.attr == "behavior" for st in t.body for c in calls_in(st))
+                rewrites = any(isinstance(tg, ast.Subscript) and "pipeline_registers" in ast.unparse(tg.value)
+                               for st in t.finalbody for x in ast.walk(st) if isinstance(x, (ast.Assign, ast.AugAssign))
+                               for tg in (x.targets if isinstance(x, ast.Assign) else [x.target]))
+                if in_body and rewrites:
+                    r.check(False, f"Pipeline.{h.name}|finally-restores-input", h.loc(t),
+                            f"Pipeline.{h.name} runs the stage inside `try .. finally` and the `finally` rewrites pipeline_registers: when the stage "
+                            "fails, the substituted input register is put back before Pipeline.step's handler reads pipeline_registers[index - 1], so "
+                            "the InstructionExecutionException names the wrong instruction")
+        if r.violations if hasattr(r, "violations") else False:
+            return
+        if any(f_.rule == rid for f_ in ctx.findings):
+            return
         raise AnalysisError(f"{rid}: no stage dispatch site (`<stage>.behavior(...)`) in Pipeline.step")
     for c in dispatch:
         key = f"Pipeline.step|dispatch@{_enclosing_test(step, c)}"
